@@ -33,6 +33,17 @@ KNOWN_FILE = os.path.join(os.path.dirname(os.path.dirname(os.path.abspath(__file
 _known_cache: Optional[Dict[str, List[str]]] = None
 
 
+def dotted_name(e):
+    parts = []
+    while isinstance(e, ast.Attribute):
+        parts.append(e.attr)
+        e = e.value
+    if isinstance(e, ast.Name):
+        parts.append(e.id)
+        return ".".join(reversed(parts))
+    return None
+
+
 def known_names() -> Dict[str, List[str]]:
     global _known_cache
     if _known_cache is None:
@@ -408,8 +419,10 @@ class Inliner:
                 if decs_:
                     self.helpers[(None, st.name)].is_ctx = True
             elif isinstance(st, ast.ClassDef):
+                known_methods = {k_.split(".")[-1] for k_ in known if "." in k_}
                 for f in st.body:
-                    if isinstance(f, FDEFS) and f.name.startswith("_") and not f.name.startswith("__") and f"{st.name}.{f.name}" not in known:
+                    # (a method the reference tree knows under another class of this module has only moved - to a mixin, a base class: it is no new helper)
+                    if isinstance(f, FDEFS) and f.name.startswith("_") and not f.name.startswith("__") and f"{st.name}.{f.name}" not in known and f.name not in known_methods:
                         decs = {d.id if isinstance(d, ast.Name) else getattr(d, "attr", "") for d in f.decorator_list}
                         if decs == {"contextmanager"}:
                             h_ = Helper(f, "method", st.name)
@@ -1748,7 +1761,17 @@ def _private_records(tree: ast.Module, known: Set[str]) -> Dict[str, List[Tuple[
         ok = True
         for b in _strip_doc(st.body):
             if isinstance(b, ast.AnnAssign) and isinstance(b.target, ast.Name) and b.simple:
-                fields.append((b.target.id, b.value))
+                v_ = b.value
+                if isinstance(v_, ast.Call) and (dotted_name(v_.func) or "").split(".")[-1] == "field":
+                    # field(default=V) -> V ; field(default_factory=F) -> F() (a fresh value wherever the record is built) ; anything else: not a plain record
+                    kw_ = {k_.arg: k_.value for k_ in v_.keywords}
+                    if v_.args or set(kw_) - {"default", "default_factory"} or len(kw_) != 1:
+                        ok = False
+                    elif "default" in kw_:
+                        v_ = kw_["default"]
+                    else:
+                        v_ = ast.copy_location(ast.Call(func=kw_["default_factory"], args=[], keywords=[]), v_)
+                fields.append((b.target.id, v_))
             elif not isinstance(b, ast.Pass):
                 ok = False
         if ok and fields:
